@@ -372,7 +372,7 @@ def sandbox_helpers():
     return names
 
 
-def helper_histories(part, nparts, length):
+def helper_histories(part, nparts, length, report=None):
     out, n, loaded = [], 0, 0
     names = sandbox_helpers()
     ops = [(h, a) for h in names for a in HELPER_ARGS]
@@ -381,7 +381,9 @@ def helper_histories(part, nparts, length):
         for i, hs in enumerate(itertools.product(ops, repeat=L)):
             if i % nparts == part:
                 hists.append(hs)
-    for hs in hists:
+    for hi, hs in enumerate(hists):
+        if report is not None:
+            report(hi)
         ctx = new_ctx(lua=True)
         ctx.add_page("Module:warm", 828, "local e = {} function e.f(frame) return 'w' end return e", model="Scribunto")
         calls = " ".join("pcall(%s, %s)" % (h, a) for h, a in hs)
@@ -487,7 +489,7 @@ def work(payload, skip, report):
             acc.violation(o, case, ob, ex)
     elif kind == "helpers":
         _, part, nparts, length = payload
-        res, n, nh, loaded = helper_histories(part, nparts, length)
+        res, n, nh, loaded = helper_histories(part, nparts, length, report)
         acc.case(n)
         acc.count("helper_probes_loaded", loaded)
         acc.count("helper_histories", n)
